@@ -18,7 +18,11 @@ on fresh real objects (nothing of the implementation is copied or modelled), wit
 hashing (see Exec.canon for the same-futures argument) and a stateless cross-check on a sub-space.
 """
 import os
+import io
+import time
+import asyncio
 import hashlib
+import marshal
 import itertools
 
 PROPERTY = 'C01'
@@ -72,11 +76,16 @@ def kinds_for(content):
 
 
 def scripts_for(content, chunking='all'):
-    """List of (kind, chunks) - chunking 'all' = every composition; 'ws' = {whole, all single bytes}."""
+    """List of (kind, chunks) - chunking 'all' = every composition; 'ws' = {whole, all single bytes};
+    'ws-' = as 'ws' except that the over-long-by-n script comes whole and as [content, content] (first copy
+    ends on a chunk boundary) instead of 2n single bytes."""
     out = []
+    n = len(content)
     for kind, data in kinds_for(content):
         comps = compositions(data)
-        if chunking == 'ws':
+        if chunking == 'ws-' and kind == 'longn':
+            comps = [comps[0], (data[:n], data[n:])]
+        elif chunking in ('ws', 'ws-'):
             comps = [comps[0]] if len(comps) == 1 else [comps[0], comps[-1]]
         for c in comps:
             out.append((kind, c))
@@ -117,6 +126,15 @@ def _loop_class():
     return _LOOPCLS
 
 
+_PLAIN = frozenset([type(None), bool, int, str, bytes, float])
+
+
+def sdigest(canon):
+    """8-byte digest of a canonical state (nested tuples of str/bytes/int/bool/None only; marshal format 2
+    has no object references, so equal values give equal bytes)."""
+    return hashlib.blake2b(marshal.dumps(canon, 2), digest_size=8).digest()
+
+
 def _fut_state(f):
     if not f.done():
         return 'P'
@@ -132,9 +150,7 @@ def _fut_state(f):
 def _val(v, futmap):
     """Canonical form of an attribute value of a writer / blob (generic, so that state moved around by
     an edit of the code under test is still seen)."""
-    import asyncio
-    import io
-    if v is None or isinstance(v, (bool, int, str, bytes, float)):
+    if type(v) in _PLAIN:
         return v
     if isinstance(v, io.BytesIO):
         return ('bio', None if v.closed else v.getvalue())
@@ -559,7 +575,7 @@ def _witness(ex, res):
 def explore(case, blob_dir, res, visited, use_hash=True, collect=None):
     """All interleavings of one case.  visited: set of state digests shared by the caller (per batch).
     collect: optional dict to receive {'states': set, 'outcomes': set, 'first': trace, 'last': trace}."""
-    from vf.core import digest
+    digest = sdigest
     stack = [()]
     cj = None
     nviol = 0
@@ -642,7 +658,7 @@ def describe(case):
 
 def run_trace(case, events, blob_dir):
     """Re-execute one recorded event sequence without the explorer.  Returns (violation or None, log)."""
-    from vf.core import digest
+    digest = sdigest
     ex = Exec(case, blob_dir)
     log = []
     bad = None
@@ -665,3 +681,473 @@ def run_trace(case, events, blob_dir):
     finally:
         ex.close()
     return bad, log
+
+
+# ================================================================================================
+# families of cases (the bounded spaces), batches, workers
+# ================================================================================================
+
+def fam(name, cls, n, k, chunking, mode='known', order='multiset', batch=100, maxchunks=None):
+    return {'name': name, 'cls': cls, 'n': n, 'k': k, 'chunking': chunking, 'mode': mode, 'order': order, 'batch': batch,
+            'maxchunks': maxchunks}
+
+
+def alphabet_of(f):
+    """Per-writer alphabet of a family: list of writer dicts."""
+    content = content_for(f['n'])
+    out = []
+    for kind, chunks in scripts_for(content, f['chunking']):
+        if f['mode'] == 'unknown':
+            for L in (f['n'], f['n'] - 1, f['n'] + 1):
+                out.append({'kind': kind, 'chunks': chunks, 'L': L})
+        else:
+            out.append({'kind': kind, 'chunks': chunks})
+    return out
+
+
+def cases_of(f, lo=0, hi=None):
+    content = content_for(f['n'])
+    alpha = alphabet_of(f)
+    idx = range(len(alpha))
+    it = itertools.product(idx, repeat=f['k']) if f['order'] == 'ordered' else \
+        itertools.combinations_with_replacement(idx, f['k'])
+    mc = f.get('maxchunks')
+    for combo in itertools.islice(it, lo, hi):
+        if mc is not None and sum(len(alpha[i]['chunks']) for i in combo) > mc:
+            continue        # outside this (cross-check) sub-space by definition: too many chunks in total
+        yield {'cls': f['cls'], 'content': content, 'known_length': f['mode'] != 'unknown',
+               'late_open': f['mode'] == 'late', 'writers': [alpha[i] for i in combo]}
+
+
+def count_cases(f):
+    import math
+    a = len(alphabet_of(f))
+    return a ** f['k'] if f['order'] == 'ordered' else math.comb(a + f['k'] - 1, f['k'])
+
+
+def families(tier):
+    F = []
+    both = ('buffer', 'file')
+    if tier == 'quick':
+        for cls in both:
+            for n in (1, 3, 4):
+                F.append(fam(f'single-n{n}', cls, n, 1, 'all', batch=400))
+            F.append(fam('pairs-n1', cls, 1, 2, 'all', order='ordered', batch=100))
+            F.append(fam('triples-n1', cls, 1, 3, 'all', batch=40))
+            F.append(fam('pairs-n3-all', cls, 3, 2, 'all', batch=130))
+            F.append(fam('triples-n3-ws-', cls, 3, 3, 'ws-', batch=30))
+            F.append(fam('unknown-single-n3', cls, 3, 1, 'all', mode='unknown', batch=400))
+            F.append(fam('unknown-pairs-n1', cls, 1, 2, 'all', mode='unknown', batch=150))
+            F.append(fam('unknown-pairs-n3-ws', cls, 3, 2, 'ws', mode='unknown', batch=100))
+            F.append(fam('late-pairs-n3-ws', cls, 3, 2, 'ws', mode='late', batch=60))
+    else:
+        for cls in both:
+            for n in (1, 3, 4):
+                F.append(fam(f'single-n{n}', cls, n, 1, 'all', batch=400))
+                F.append(fam(f'unknown-single-n{n}', cls, n, 1, 'all', mode='unknown', batch=400))
+            F.append(fam('pairs-n1', cls, 1, 2, 'all', order='ordered', batch=100))
+            F.append(fam('triples-n1', cls, 1, 3, 'all', order='ordered', batch=128))
+            F.append(fam('pairs-n3-all', cls, 3, 2, 'all', order='ordered', batch=256))
+            F.append(fam('pairs-n4-all', cls, 4, 2, 'all', order='ordered', batch=400))
+            F.append(fam('triples-n3-all', cls, 3, 3, 'all', batch=200))
+            F.append(fam('triples-n4-ws', cls, 4, 3, 'ws', batch=30))
+            F.append(fam('unknown-pairs-n1', cls, 1, 2, 'all', mode='unknown', batch=150))
+            F.append(fam('unknown-triples-n1', cls, 1, 3, 'all', mode='unknown', batch=200))
+            F.append(fam('unknown-pairs-n3-all', cls, 3, 2, 'all', mode='unknown', batch=200))
+            F.append(fam('unknown-triples-n3-ws', cls, 3, 3, 'ws', mode='unknown', batch=60))
+            F.append(fam('late-pairs-n3-all', cls, 3, 2, 'all', mode='late', batch=100))
+            F.append(fam('late-triples-n3-ws', cls, 3, 3, 'ws', mode='late', batch=15))
+    return F
+
+
+def xcheck_families(tier):
+    """Sub-spaces explored twice - with state hashing and stateless - and compared."""
+    F = []
+    q = tier == 'quick'
+    for cls in ('buffer', 'file'):
+        # maxchunks bounds the total number of chunks of a case: the stateless enumeration grows like the
+        # multinomial coefficient of the chunk counts (two 6-chunk writers alone are 142 800 executions)
+        F.append(fam('x-pairs-n3-ws', cls, 3, 2, 'ws', batch=20, maxchunks=5 if q else 7))
+        F.append(fam('x-triples-n1', cls, 1, 3, 'all', batch=20, maxchunks=4 if q else 6))
+        F.append(fam('x-unknown-pairs-n1', cls, 1, 2, 'all', mode='unknown', batch=60, maxchunks=3 if q else 4))
+        if not q:
+            F.append(fam('x-late-pairs-n3-ws', cls, 3, 2, 'ws', mode='late', batch=20, maxchunks=4))
+            F.append(fam('x-pairs-n3-all', cls, 3, 2, 'all', batch=100, maxchunks=5))
+            F.append(fam('x-triples-n3-ws', cls, 3, 3, 'ws', batch=60, maxchunks=4))
+    return F
+
+
+def _dir():
+    from vf.bootstrap import scratch_dir
+    return scratch_dir('c01')
+
+
+def _selfcheck_trace(case, events, expect_bad, blob_dir, res):
+    """Determinism: replay a recorded event sequence twice; logs and verdict must agree."""
+    a = run_trace(case, events, blob_dir)
+    b = run_trace(case, events, blob_dir)
+    res.count('determinism_replays', 2)
+    if a[1] != b[1] or (a[0] is None) != (b[0] is None):
+        res.error(f'C01 determinism: two replays of {describe(case)} / {events} differ')
+    got = a[0][0] if a[0] else None
+    if got != expect_bad:
+        res.error(f'C01 determinism: replay verdict {got!r} != explored verdict {expect_bad!r} for {describe(case)} / {events}')
+
+
+def work_batch(item, res):
+    """One batch of consecutive cases of a family; the visited-state set is shared inside the batch."""
+    import shutil
+    f, lo, hi, want_sample = item
+    d = _dir()
+    t0 = time.process_time()
+    try:
+        visited = set()
+        col = {'states': set(), 'outcomes': set(), 'first': None, 'last': None}
+        first_case = last_case = None
+        seen_viol = set(res.violations)
+        for case in cases_of(f, lo, hi):
+            res.count('evaluations')
+            res.count(f"cases:{f['name']}:{f['cls']}")
+            if is_nontrivial(case):
+                res.distinct_add('nontrivial', case_key(case))
+            had_last = col['last']
+            col['last'] = None
+            explore(case, d, res, visited, True, col)
+            if col['last'] is not None:
+                last_case = case
+                if first_case is None:
+                    first_case = (case, col['first'])
+            else:
+                col['last'] = had_last
+            if want_sample and col['first'] is not None and len(res.samples) < 2:
+                res.sample({'family': f['name'], 'case': describe(case), 'one_complete_trace': col['last']})
+        if first_case is not None:
+            _selfcheck_trace(first_case[0], first_case[1], None, d, res)
+            _selfcheck_trace(last_case, col['last'], None, d, res)
+        for k, v in res.violations.items():
+            if k not in seen_viol:
+                _selfcheck_trace(case_from_json(v['replay']['case']), v['replay']['events'], v['replay']['expect'], d, res)
+    finally:
+        shutil.rmtree(d, ignore_errors=True)
+        res.count(f"cpu_ms:{f['name']}", int((time.process_time() - t0) * 1000))
+
+
+def work_xcheck(item, res):
+    """Same cases explored with state hashing (fresh visited set per case) and stateless; the sets of
+    canonical states reached, the sets of final outcomes and the verdicts must be identical.  This tests
+    the same-futures argument of Exec.canon on the implementation itself."""
+    import shutil
+    from vf.core import Result
+    f, lo, hi, _ = item
+    d = _dir()
+    t0 = time.process_time()
+    try:
+        for case in cases_of(f, lo, hi):
+            res.count('evaluations')
+            ra, rb = Result(), Result()
+            ca = {'states': set(), 'outcomes': set(), 'first': None, 'last': None}
+            cb = {'states': set(), 'outcomes': set(), 'first': None, 'last': None}
+            explore(case, d, ra, set(), True, ca)
+            explore(case, d, rb, None, False, cb)
+            res.count('xcheck_cases')
+            res.count('xcheck_stateless_executions', rb.counters['executions'])
+            res.count('xcheck_hashed_executions', ra.counters['executions'])
+            if ca['states'] != cb['states'] or ca['outcomes'] != cb['outcomes'] or set(ra.violations) != set(rb.violations):
+                res.error(f'C01 state-hashing cross-check failed for {describe(case)}: hashed {len(ca["states"])} states / '
+                          f'{len(ca["outcomes"])} outcomes / {len(ra.violations)} violation signatures, stateless '
+                          f'{len(cb["states"])} / {len(cb["outcomes"])} / {len(rb.violations)}')
+            # the stateless run is a full enumeration on the implementation: keep its numbers and findings
+            rb.distinct.pop('states', None)
+            res.merge(rb)
+            res.distinct['states'] |= ca['states']
+            if is_nontrivial(case):
+                res.distinct_add('nontrivial', case_key(case))
+    finally:
+        shutil.rmtree(d, ignore_errors=True)
+        res.count(f"cpu_ms:{f['name']}", int((time.process_time() - t0) * 1000))
+
+
+def work(item, res):
+    if item[0] == 'batch':
+        work_batch(item[1:], res)
+    elif item[0] == 'xcheck':
+        work_xcheck(item[1:], res)
+    elif item[0] == 'single':
+        work_single(item[1], res)
+    else:
+        raise ValueError(item)
+
+
+# ================================================================================================
+# boundary singles at MAX_BLOB_SIZE (default schedule, safety checked in every state)
+# ================================================================================================
+
+SINGLES = [
+    # name, cls, writers (kind, chunk size or None = one chunk), expectation
+    ('max-ok-1chunk', 'file', [('ok', None)], 'verified'),
+    ('max-ok-64k', 'file', [('ok', 65536)], 'verified'),
+    ('max-ok-1chunk', 'buffer', [('ok', None)], 'verified'),
+    ('max-ok-64k', 'buffer', [('ok', 65536)], 'verified'),
+    ('max-lastbit-1chunk', 'file', [('bit_last', None)], 'refused'),
+    ('max-lastbit-64k', 'file', [('bit_last', 65536)], 'refused'),
+    ('max-firstbit-64k', 'buffer', [('bit_first', 65536)], 'refused'),
+    ('max-midbit-1chunk', 'buffer', [('bit_mid', None)], 'refused'),
+    ('max-long1-1chunk', 'file', [('long1', None)], 'refused'),
+    ('max-long1-64k', 'file', [('long1', 65536)], 'verified'),      # first 2 MiB land on a chunk boundary
+    ('max-short1-64k', 'file', [('short1', 65536)], 'refused'),
+    ('max-ok-vs-lastbit-64k', 'file', [('bit_last', 65536), ('ok', 65536)], 'verified'),
+    ('max-ok-vs-lastbit-64k', 'buffer', [('ok', 65536), ('bit_last', 65536)], 'verified'),
+    ('max-unknown-then-set', 'file', 'setlen', 'verified'),
+    ('len0-known', 'file', 'len0', 'refused'),
+    ('len0-known', 'buffer', 'len0', 'refused'),
+]
+
+
+def _big_content():
+    from lbry.blob import MAX_BLOB_SIZE
+    return hashlib.shake_256(b'C01 boundary content').digest(MAX_BLOB_SIZE)
+
+
+def _chunks(b, size):
+    return (b,) if size is None else tuple(b[i:i + size] for i in range(0, len(b), size))
+
+
+def _single_case(name, cls, spec):
+    content = _big_content()
+    n = len(content)
+    ws = []
+    for kind, size in spec:
+        if kind == 'ok':
+            data = content
+        elif kind == 'bit_last':
+            data = content[:-1] + bytes([content[-1] ^ 1])
+        elif kind == 'bit_first':
+            data = bytes([content[0] ^ 0x80]) + content[1:]
+        elif kind == 'bit_mid':
+            data = content[:n // 2] + bytes([content[n // 2] ^ 0x10]) + content[n // 2 + 1:]
+        elif kind == 'long1':
+            data = content + b'\x00'
+        elif kind == 'short1':
+            data = content[:-1]
+        else:
+            raise ValueError(kind)
+        ws.append({'kind': 'ok' if kind == 'ok' else ('long1' if kind == 'long1' else 'flip0'), 'chunks': _chunks(data, size)})
+    return {'cls': cls, 'content': content, 'known_length': True, 'writers': ws}
+
+
+def run_single(name, cls, spec, expect, blob_dir):
+    """Returns (bad or None, log lines).  Round-robin over the writers, loop settled after every chunk
+    (default schedule); the safety invariant is evaluated after every event."""
+    from lbry.blob import MAX_BLOB_SIZE
+    from lbry.blob.blob_file import BlobFile, BlobBuffer
+    log = []
+    if spec == 'len0':
+        loop = _loop_class()().activate()
+        try:
+            h = hashlib.sha384(b'').hexdigest()
+            fired = []
+            blob = (BlobFile if cls == 'file' else BlobBuffer)(loop, h, 0, lambda b: fired.append(1), blob_dir)
+            w = blob.get_blob_writer('10.0.0.1', PORT)
+            try:
+                w.write(b'')
+                log.append('write(b"") returned')
+            except OSError as e:
+                log.append(f'write(b"") raised OSError({e})')
+            loop.settle()
+            present = os.path.exists(os.path.join(blob_dir, h))
+            log.append(f'verified={blob.get_is_verified()} file={present} callbacks={len(fired)} future={_fut_state(w.finished)}')
+            bad = None
+            # n = 0 is outside the statement (0 < n); only "nothing wrong is stored" is demanded
+            if present and open(os.path.join(blob_dir, h), 'rb').read() != b'':
+                bad = ('stored-with-wrong-bytes', 'length-0 blob stored with non-empty bytes')
+            blob.close()
+            w.close_handle()
+            return bad, log, {'len0_verified': blob.get_is_verified()}
+        finally:
+            loop.shutdown()
+            try:
+                os.remove(os.path.join(blob_dir, hashlib.sha384(b'').hexdigest()))
+            except FileNotFoundError:
+                pass
+    if spec == 'setlen':
+        content = _big_content()
+        case = {'cls': cls, 'content': content, 'known_length': False,
+                'writers': [{'kind': 'ok', 'chunks': _chunks(content, 65536), 'L': MAX_BLOB_SIZE}]}
+        ex = Exec(case, blob_dir)
+        try:
+            for L in (MAX_BLOB_SIZE + 1, -1):
+                ex.blob.set_length(L)
+                if ex.blob.get_length() is not None:
+                    return ('set-length-bound', f'set_length({L}) accepted'), log, {}
+                log.append(f'set_length({L}) refused')
+            try:
+                ex.ws[0].write(content[:1])
+                return ('write-without-length', 'write accepted while the length is unknown'), log, {}
+            except OSError:
+                log.append('write with unknown length raised OSError')
+            # the refused write above never reached the writer; start over with the real script
+            bad = _default_schedule(ex, log)
+            ex.blob.set_length(5)
+            if ex.blob.get_length() != MAX_BLOB_SIZE:
+                bad = bad or ('set-length-overrides', 'set_length changed an established length')
+            return _expect(ex, bad, expect), log, {}
+        finally:
+            ex.close()
+    case = _single_case(name, cls, spec)
+    ex = Exec(case, blob_dir)
+    try:
+        bad = _default_schedule(ex, log)
+        return _expect(ex, bad, expect), log, {}
+    finally:
+        ex.close()
+
+
+def _default_schedule(ex, log):
+    bad = ex.check()
+    while bad is None:
+        en = ex.enabled()
+        if not en:
+            ex.verified_at_quiescence = ex.blob.get_is_verified()   # reader_context of BlobBuffer consumes it
+            bad = ex.check_final() or ex.readable_final()
+            break
+        # settle the loop first (STEP/JD/JR come first in canonical order), then the writer that is
+        # furthest behind (round robin)
+        loopev = [e for e in en if e[0] in 'SJ']
+        if loopev:
+            e = loopev[0]
+        else:
+            e = min((x for x in en if x[0] == 'W'), key=lambda x: (ex.pos[int(x[1:])], int(x[1:])))
+        ex.do(e)
+        bad = ex.check()
+    log.append(f'{ex.nevents} events; verified={ex.blob.get_is_verified()} callbacks={len(ex.callbacks)} '
+               f'futures={[("R" if isinstance(_fut_state(w.finished), tuple) else _fut_state(w.finished)) for w in ex.ws]} '
+               f'caller_errors={sorted(set(n for _, n in ex.caller_errors))}')
+    return bad
+
+
+def _expect(ex, bad, expect):
+    if bad is not None:
+        return bad
+    v = ex.verified_at_quiescence
+    if expect == 'verified' and not v:
+        return ('boundary-not-verified', 'correct 2 MiB copy delivered but blob not verified')
+    if expect == 'refused' and v:
+        return ('boundary-verified', 'blob verified although no correct copy was delivered')
+    return None
+
+
+def work_single(idx, res):
+    import shutil
+    name, cls, spec, expect = SINGLES[idx]
+    d = _dir()
+    try:
+        res.count('evaluations')
+        res.count('boundary_singles')
+        bad, log, extra = run_single(name, cls, spec, expect, d)
+        bad2, log2, _ = run_single(name, cls, spec, expect, d)
+        res.count('determinism_replays', 1)
+        res.count('executions', 2)
+        if log != log2 or (bad is None) != (bad2 is None):
+            res.error(f'C01 determinism: boundary single {name}/{cls} differs between two runs')
+        if extra.get('len0_verified'):
+            res.tally('outside_statement:length_0_blob_verified')
+        if spec == 'len0':
+            res.tally('outside_statement:length_0_blob_cases')
+        res.distinct_add('nontrivial', ('single', name, cls))
+        res.witness('boundary_2MiB_executed' if spec != 'len0' else 'length_0_executed')
+        if bad is not None:
+            res.violation({'kind': bad[0], 'cls': cls, 'family': 'boundary', 'single': name}, f'{bad[1]} [{name}/{cls}]',
+                          {'single': idx, 'name': name, 'cls': cls, 'expect': bad[0]})
+    finally:
+        shutil.rmtree(d, ignore_errors=True)
+
+
+# ================================================================================================
+# entry points
+# ================================================================================================
+
+EXPECTED_WITNESSES = [
+    'two_writers_completed_before_any_callback_ran', 'pending_writer_cancelled_by_winner',
+    'overlong_peer_on_chunk_boundary_wins', 'straddling_chunk_of_correct_prefix_refused',
+    'hash_mismatch_refused', 'overlength_write_refused', 'file_on_disk_before_verified_event',
+    'conflicting_set_length_ignored', 'late_open_refused', 'boundary_2MiB_executed',
+]
+
+
+def run(ctx):
+    tier = ctx.tier
+    items = []
+    fams = families(tier)
+    total_cases = 0
+    for f in fams:
+        nc = count_cases(f)
+        total_cases += nc
+        first = True
+        for lo in range(0, nc, f['batch']):
+            items.append(('batch', f, lo, min(nc, lo + f['batch']), first and f['cls'] == 'file'))
+            first = False
+    xf = xcheck_families(tier)
+    for f in xf:
+        nc = count_cases(f)
+        for lo in range(0, nc, f['batch']):
+            items.append(('xcheck', f, lo, min(nc, lo + f['batch']), False))
+    items += [('single', i) for i in range(len(SINGLES))]
+    # big items first for load balance (the set of items is fixed; only their dispatch order changes)
+    order = {'triples': 0, 'late-triples': 0, 'unknown-triples': 0}
+    items.sort(key=lambda it: 0 if (it[0] == 'batch' and it[1]['k'] == 3) else 1 if it[0] == 'single' else 2 if it[0] == 'xcheck' else 3)
+    ctx.pmap(work, items)
+    res = ctx.res
+    spaces = {}
+    for f in fams:
+        spaces[f"{f['name']}/{f['cls']}"] = count_cases(f)
+    ctx.meta.update(
+        rule=('case = blob class x content length n x family (known length | unknown length with one set_length(L_i), '
+              'L_i in {n,n-1,n+1}, per writer before its first write | late open: get_blob_writer is an event too) x '
+              'tuple of 1..3 writer scripts; script = kind (correct, each byte flipped by one bit, every truncation incl. '
+              'empty, over-long by 1, over-long by n, unrelated) x chunking (every composition, or {whole, single bytes} '
+              'where stated in bounds). For every case ALL interleavings of O(i)/S(i)/W(i)/STEP/JOB_RUN/JOB_DONE events are '
+              'explored (DFS, re-execution on fresh real objects, canonical-state hashing cross-checked against stateless '
+              'enumeration); safety in every state, liveness in every quiescent state. Pairs are enumerated as ordered '
+              'tuples, triples as multisets (writers created in sorted order). evaluations = cases; non-trivial = distinct '
+              'writer-script multisets with >= 2 writers (all their overlaps are explored) or a misbehaving writer or a '
+              'set_length event; plus the 2 MiB boundary singles.'),
+        exhaustive=True,
+        bounds={'tier': tier, 'families': spaces, 'cases': total_cases, 'max_writers': 3,
+                'content_lengths': [1, 3, 4], 'boundary_singles': len(SINGLES),
+                'stateless_crosscheck_families': sorted({f['name'] for f in xf})},
+        bound_completed='all families listed in bounds fully enumerated, every interleaving',
+        assumptions=[
+            'executor job bodies (the file write) are atomic at loop-iteration boundaries (JOB_RUN), their completion '
+            'reaches the loop at a later boundary (JOB_DONE); interleaving inside the body is not modelled',
+            'writer data arrives between loop iterations (as data_received does); the ready queue is FIFO and never reordered',
+            'contents of 1, 3 and 4 bytes carry the exhaustive part (the code compares lengths only through >, == and '
+            'truthiness); 2 MiB contents appear as default-schedule singles',
+            'triples: writers are created in the sorted order of their scripts (pairs: both orders; late-open family: '
+            'every creation order)',
+            'SHA-384 collisions are outside the enumeration',
+            '"delivered a complete correct copy" = cumulative bytes equal the content exactly at a chunk boundary while '
+            'the announced length is n; exceptions raised to a misbehaving writer\'s own caller are outside the oracle (tallied)',
+            'writers opened after the first complete copy was delivered are not "pending" writers of the statement; '
+            'the completion callback firing exactly once is not demanded by the liveness clause (both tallied)',
+        ],
+        expected_witnesses=EXPECTED_WITNESSES,
+    )
+
+
+def replay(data):
+    import shutil
+    d = _dir()
+    try:
+        if 'single' in data:
+            name, cls, spec, expect = SINGLES[int(data['single'])]
+            bad, log, _ = run_single(name, cls, spec, expect, d)
+            lines = [f'boundary single {name}/{cls}'] + log
+        else:
+            case = case_from_json(data['case'])
+            bad, log = run_trace(case, list(data['events']), d)
+            lines = [describe(case)] + ['  ' + ' | '.join(str(x) for x in row) for row in log]
+        if bad is not None:
+            lines.append(f'VIOLATED: {bad[0]}: {bad[1]}')
+        return bad is not None, '\n'.join(lines)
+    finally:
+        shutil.rmtree(d, ignore_errors=True)
